@@ -35,6 +35,12 @@ var c32Contexts = []string{
 	"a -> a",
 	"a -> b: {source-arrowhead: x; target-arrowhead: {shape: diamond; label: hello}}",
 	"c: hello {d}\na -> c.d",
+	"c: Контейнер {d}\na -> c.d",
+	"c: héllo wörld {d; e}\na -> c.d\nc.e -> a",
+	// routes that enter a container from above cross its label row; a label of non-ASCII letters only, as wide as the
+	// container, is crossed on a multi-byte letter wherever the route runs
+	"c: Контейнер {d: inner; e: other}\na -> c.d\na -> c.e",
+	"c: ЖЖЖЖЖЖЖЖЖЖЖЖЖЖЖЖЖЖЖЖ {d; e; f}\na -> c.d\na -> c.e\na -> c.f",
 	"a.style.multiple: true",
 	"direction: right\na -> b: x",
 	"a.label.near: bottom-center",
@@ -155,7 +161,7 @@ func c32Oracle(in string) eng.Res {
 			if sc.v == nil {
 				lines := strings.Split(text, "\n")
 				for _, s := range d.Shapes {
-					if !c32IsPlain(s.Type) || isContainer[s.ID] || s.Label == "" || strings.Contains(s.Label, "\n") {
+					if !c32IsPlain(s.Type) || s.Label == "" || strings.Contains(s.Label, "\n") {
 						continue
 					}
 					found := false
@@ -217,14 +223,14 @@ func init() {
 		Rule: "diagram = object a with (shape in all 18 plain shapes + class, sql_table, text, code, image, sequence_diagram, hierarchy) x (label in {none, x, hello, é, 'a b', héllo}) x (context in 15: none, connections in every arrow direction with and without labels, arrowhead shape+labels, self loop, container with crossing connection, multiple, direction right, inside/outside label positions, a as container, two opposite connections, animated connection to a labelled circle); laid out by ELK through d2lib.Compile as d2cli does for txt output, rendered by d2ascii in both character sets and scales {default, 0.5, 2}; non-trivial = the diagram compiled and was rendered",
 		Assumptions: []string{
 			"'label characters' = every rune of any shape label, class/table member text, connection label or arrowhead label of the diagram; in the standard charset every other output rune must be < 0x80",
-			"'plain shape' = the 18 frame-with-one-label shapes, not being a container; class, sql_table, text, code, image and diagram-typed shapes and containers are checked for totality and 7-bit only",
+			"'plain shape' = the 18 frame-with-one-label shapes, containers included; class, sql_table, text, code, image and diagram-typed shapes are checked for totality and 7-bit only",
 			"label visibility (the label is a substring of one output line) is demanded at the default scale only; at scales 0.5 and 2 only totality and 7-bit are checked, since the statement does not say labels must fit a shrunken grid",
-			"quick tier uses the first 13 contexts for plain shapes and the first five for the structured (non-plain) shapes; thorough adds the rest and all ordered pairs of plain shapes joined by a labelled connection",
+			"quick tier uses the first 17 contexts for plain shapes and the first five for the structured (non-plain) shapes; thorough adds the rest and all ordered pairs of plain shapes joined by a labelled connection",
 		},
 		Oracles: map[string]eng.Oracle{"ascii": c32Oracle},
 		Run: func(w *eng.W) {
 			runtime.GOMAXPROCS(2)
-			nctx := w.Pick(13, len(c32Contexts))
+			nctx := w.Pick(17, len(c32Contexts))
 			w.Phase(fmt.Sprintf("plain shapes x labels x first %d contexts", nctx), func() {
 				for _, s := range c32PlainShapes {
 					for _, l := range c32Labels {
